@@ -128,6 +128,8 @@ type streamOpts struct {
 	consumerAlive  bool
 	lossless       bool
 	lossyDatagrams bool // datagram links lose, duplicate, reorder and corrupt: soundness only
+	history        []dsim.Rec
+	asOf           time.Duration // when the events were snapshot (0 = end of run): later sends do not count
 }
 
 func (e *env) checkEventStream(events []obs, opt streamOpts) {
@@ -204,7 +206,7 @@ func (e *env) checkEventStream(events []obs, opt streamOpts) {
 		for _, it := range l.sent {
 			if it.kind == sendValid {
 				want = append(want, it)
-				if it.done {
+				if it.done && (opt.asOf == 0 || it.tDone < opt.asOf) {
 					complete++
 				}
 			} else {
@@ -279,6 +281,29 @@ func (e *env) checkEventStream(events []obs, opt streamOpts) {
 		if opt.lossless && !l.datagram && l.peerClosed && !l.peerReset && l.txErr == nil && s.closes == 1 &&
 			errors.Is(s.closeErr, io.EOF) && !(l.ep.kind == epCustom && customSeen[l]) {
 			fully = true
+		}
+		// a stream channel that was expired (read timeout) had consumed everything that had arrived
+		// before the deadline fired: a peer's frame completely sent before that instant surfaced
+		if opt.lossless && opt.consumerAlive && l.conn != nil && s.closes == 1 && isTimeout(s.closeErr) && !l.peerReset {
+			var fired time.Duration = -1
+			want := l.conn.Peer.Name + " read timeout"
+			for _, r := range opt.history {
+				if r.Kind == "net" && r.S == want {
+					fired = r.T
+				}
+			}
+			if fired >= 0 {
+				n := 0
+				for _, it := range l.sent {
+					if it.kind == sendValid && it.done && it.tDone < fired {
+						n++
+					}
+				}
+				if len(s.frames) < n {
+					dsim.Failf("frames-lossless", "%s: expired by a read timeout at t=%v although %d valid frames had completely arrived before that instant and only %d had surfaced: data that was already there was thrown away", name, fired, n, len(s.frames))
+					return
+				}
+			}
 		}
 		if l.ep.kind == epCustom {
 			if customSeen[l] {
@@ -510,6 +535,7 @@ func eventStreamRun(keyed bool) func(h []dsim.Rec) {
 		dsim.EnableStalls(1 + dsim.Choose(20))
 	}
 	cfg.srEnable = dsim.Choose(3) == 2
+	cfg.idleTO = dsim.Pick(time.Duration(0), 0, 1500*time.Millisecond, 4*time.Second)
 	e := newEnv(cfg)
 	e.peerAPHeartbeats = cfg.srEnable && cfg.dialectKind == 0 && cfg.inKey == nil
 	e.w.ChunkMode = dsim.Choose(3)
@@ -576,6 +602,7 @@ func eventStreamRun(keyed bool) func(h []dsim.Rec) {
 		dsim.Settle("quiescence")
 	}
 	snapshot := cons.snapshot()
+	asOf := e.now()
 	cStopped, cEnded := cons.state()
 	alive := !cStopped && !cEnded
 	// the peer of a custom transport ends it (possibly handing over its last bytes together with
@@ -618,6 +645,7 @@ func eventStreamRun(keyed bool) func(h []dsim.Rec) {
 			nodeClosed = closing
 			e.mu.Unlock()
 			snapshot = cons.snapshot()
+			asOf = e.now()
 			closedAt = e.now()
 		}
 	}
@@ -627,8 +655,8 @@ func eventStreamRun(keyed bool) func(h []dsim.Rec) {
 	return func(h []dsim.Rec) {
 		// events observed up to the quiescent instant are judged for completeness; the full log
 		// (including what arrived during Close) for ordering
-		e.checkEventStream(snapshot, streamOpts{nodeClosedAt: closedAt, consumerAlive: alive, lossless: true, lossyDatagrams: lossy})
-		e.checkEventStream(cons.events, streamOpts{nodeClosedAt: 1, consumerAlive: false, lossless: true, lossyDatagrams: lossy})
+		e.checkEventStream(snapshot, streamOpts{nodeClosedAt: closedAt, consumerAlive: alive, lossless: true, lossyDatagrams: lossy, history: h, asOf: asOf})
+		e.checkEventStream(cons.events, streamOpts{nodeClosedAt: 1, consumerAlive: false, lossless: true, lossyDatagrams: lossy, history: h})
 	}
 }
 
